@@ -14,7 +14,7 @@ for attempt in 1 2; do
   echo "attempt $attempt failed"
 done
 if [ $ok -eq 1 ]; then
-  git commit -qam "$msg" && echo "COMMITTED $(git log --format=%h -1) $diff"
+  git add -A && git commit -qm "$msg" && echo "COMMITTED $(git log --format=%h -1) $diff"
 else
   echo "TESTS FAILED, reverting $diff"; grep -B2 -A12 -- "--- FAIL" /tmp/applyfix.out | head -60; git checkout -- .; exit 1
 fi
